@@ -33,19 +33,46 @@ TOL_MODEL = 1e-9
 # ---------------------------------------------------------------------------------------------
 # observation helpers
 
-_TRACE = {'target': None, 'log': None}
+_TRACE = {'target': None, 'log': None, 'touch': None, 'created': 0}
 _TRACED_CLS = []
 
 
 def traced_class():
-    """A Wavefront subclass that records attribute writes made on one designated object."""
+    """A Wavefront subclass that records attribute writes made on one designated object.  Installing it also
+    instruments `hcipy.Wavefront.__init__` and `.copy` (transparent wrappers, active only during a traced call):
+    every wavefront object created during the call is counted, and what is done *to the designated object* is
+    recorded in order -- `.copy()` called on it ('copy'), a new Wavefront constructed around its very array ('wrap'),
+    attribute writes (the attribute's name)."""
     if not _TRACED_CLS:
         import hcipy
+        base = hcipy.Wavefront
+        orig_init, orig_copy = base.__init__, base.copy
+
+        def counting_init(self, *args, **kwargs):
+            orig_init(self, *args, **kwargs)
+            tgt = _TRACE['target']
+            if tgt is not None and _TRACE['touch'] is not None and self is not tgt:
+                _TRACE['created'] += 1
+                if np.shares_memory(np.asarray(self.electric_field), np.asarray(tgt.electric_field)):
+                    _TRACE['touch'].append('wrap')
+
+        def counting_copy(self):
+            tgt = _TRACE['target']
+            if tgt is not None and _TRACE['touch'] is not None:
+                _TRACE['created'] += 1
+                if self is tgt:
+                    _TRACE['touch'].append('copy')
+            return orig_copy(self)
+        counting_init.__doc__, counting_copy.__doc__ = orig_init.__doc__, orig_copy.__doc__
+        base.__init__ = counting_init
+        base.copy = counting_copy
 
         class TracedWavefront(hcipy.Wavefront):
             def __setattr__(self, k, v):
                 if _TRACE['target'] is self and _TRACE['log'] is not None:
                     _TRACE['log'].append(k)
+                    if _TRACE['touch'] is not None:
+                        _TRACE['touch'].append(k)
                 object.__setattr__(self, k, v)
         _TRACED_CLS.append(TracedWavefront)
     return _TRACED_CLS[0]
@@ -132,10 +159,15 @@ def snap_diff(a, b):
     return res
 
 
-def call(el, direction, wf, trace=None):
-    """Run forward/backward; returns a list of output wavefronts (one unless the element splits)."""
+def call(el, direction, wf, trace=None, touch=None):
+    """Run forward/backward; returns a list of output wavefronts (one unless the element splits).
+    `trace`: list receiving the names of the attributes of `wf` that are assigned during the call;
+    `touch`: list receiving, in order, 'copy' / 'wrap' / attribute names (see traced_class), followed at the end by
+    the number of wavefront objects created during the call."""
     _TRACE['target'] = wf if trace is not None else None
     _TRACE['log'] = trace
+    _TRACE['touch'] = touch if trace is not None else None
+    _TRACE['created'] = 0
     try:
         with contextlib.redirect_stdout(io.StringIO()), warnings.catch_warnings():
             warnings.simplefilter('ignore')
@@ -143,6 +175,9 @@ def call(el, direction, wf, trace=None):
     finally:
         _TRACE['target'] = None
         _TRACE['log'] = None
+        _TRACE['touch'] = None
+        if touch is not None:
+            touch.append(_TRACE['created'])
     if isinstance(out, (tuple, list)):
         return list(out), True
     return [out], False
@@ -415,11 +450,11 @@ def run_case(entry, el, case, fresh_el=None, track=False):
     def fail(clause, what):
         bad.append(('%s %s' % (clause, tag), '%s: %s [%s, wavelength %g]' % (clause, what, entry.name, wl)))
 
-    def guarded(element, wf, base, stage, deep=False, trace=None):
+    def guarded(element, wf, base, stage, deep=False, trace=None, touch=None):
         """One call with the input snapshotted before and after (every call of the case, not only the first: an element
         may touch its input only on a cache miss, or only on a hit)."""
         b = snapshot(wf, base, lazy, deep)
-        res = call(element, direction, wf, trace)
+        res = call(element, direction, wf, trace, touch)
         for k in snap_diff(b, snapshot(wf, base, False, deep)):
             fail('input-modified:' + k, 'the wavefront passed to %s was changed (%s) by the %s' % (direction, k, stage))
         return res
@@ -448,8 +483,9 @@ def run_case(entry, el, case, fresh_el=None, track=False):
     # (i) input intact + first result
     s0 = state_snapshot(el) if track else None
     trace = []
+    touch = []
     try:
-        outs1, multi = guarded(el, wf1, E1, 'first call', deep=True, trace=trace)
+        outs1, multi = guarded(el, wf1, E1, 'first call', deep=True, trace=trace, touch=touch)
     except Exception as ex:     # noqa
         fail('raises', '%s raised %s: %s' % (direction, type(ex).__name__, str(ex)[:120]))
         return bad, obs
@@ -464,10 +500,16 @@ def run_case(entry, el, case, fresh_el=None, track=False):
         # the later clauses would run on a corrupted input / element: report the modification alone
         return bad, obs
     obs['trace'] = list(trace)
+    obs['touches'] = [t for t in touch[:-1] if not t.startswith('_')]
+    obs['created'] = touch[-1]
     obs['ret_is_input'] = int(any(o is wf1 for o in outs1))
     obs['ret_shares'] = int(any(np.shares_memory(np.asarray(o.electric_field), np.asarray(wf1.electric_field)) for o in outs1))
+    obs['ret_shares_grid'] = int(any(o.electric_field.grid is wf1.electric_field.grid for o in outs1))
+    obs['ret_shares_stokes'] = int(any(o.input_stokes_vector is not None and o.input_stokes_vector is wf1.input_stokes_vector for o in outs1))
     obs['out'] = o1
     obs['in'] = E1_keep
+    obs['ins'] = [E1_keep]          # every (input, outputs) pair of this case that the model is asked to reproduce
+    obs['outs'] = [o1]
     obs['multi'] = multi
     if multi != entry.multi:
         fail('output-form', 'forward returned %s' % ('several wavefronts' if multi else 'one wavefront'))
@@ -489,6 +531,8 @@ def run_case(entry, el, case, fresh_el=None, track=False):
             state_check(state_diff(s1, s2), 'second identical call')
         outs2, _ = guarded(el, wf2, E2, 'call with another wavefront')
         o2 = out_arrays(outs2)
+        obs['ins'].append(np.array(E2, copy=True))
+        obs['outs'].append(o2)
         ok, w = same(o1, out_arrays(outs1), 0.0, 0.0)
         if not ok:
             fail('result-overwritten', 'a later call (with another wavefront) changed the wavefront returned by an earlier call')
@@ -512,6 +556,8 @@ def run_case(entry, el, case, fresh_el=None, track=False):
         # (iii) linearity
         outs3, _ = guarded(el, wf3, E3, 'call with a*E1+E2')
         o3 = out_arrays(outs3)
+        obs['ins'].append(np.array(E3, copy=True))
+        obs['outs'].append(o3)
     except Exception as ex:     # noqa
         fail('raises', '%s raised %s on a later call: %s' % (direction, type(ex).__name__, str(ex)[:120]))
         return bad, obs
@@ -766,7 +812,7 @@ def effect_program(entry, el, direction, kind):
             return 'lyotFwdStop' if stop else 'lyotFwd'
         return 'lyotBwdStop' if stop else 'lyotBwd'
     if fam == 'lyot-jones':
-        return 'vectorZernike'
+        return 'vectorZernike' if kind == 'scalar' else 'vectorZernikePol'
     if fam in ('sandwich', 'fibre-nuller', 'modulated'):
         return 'chain'
     if fam == 'system':
@@ -787,6 +833,20 @@ def effect_program(entry, el, direction, kind):
         if stop:
             return 'vvcBwdStop' + ('Pol' if pol else 'Scalar')
         return 'vvcBwdPol' if pol else 'vvcBwdScalar'
+    return None
+
+
+def loop_rounds(prog, entry, el, case):
+    """Number of rounds of the loop of a looping effect program (Model/Elements.lean: loopPrograms) for this element:
+    scales of a multi-scale coronagraph beyond the first, elements of a layered atmosphere; None for a program
+    without loop."""
+    if prog == 'copyThenChain':
+        return len(el.elements)
+    if prog.startswith('multiscale'):
+        return len(el.props) - 1
+    if prog.startswith('vvc'):
+        grid = entry.input_grid if case['direction'] == 'forward' else entry.output_grid
+        return len(el.get_instance_data(grid, None, case['wavelength']).props) - 1
     return None
 
 
@@ -816,30 +876,24 @@ def clist(z):
     return '[' + ','.join(parts) + ']'
 
 
-def t_mul(m):
-    return 'mul ' + clist(m)
+def a_vec(m):
+    return 'v ' + clist(m)
 
 
-def t_mat(A):
+def a_mat(A):
     A = np.asarray(A, dtype=complex)
-    return 'mat %d %s' % (A.shape[0], clist(A))
+    if A.ndim != 2:
+        raise MachineryError('matrix argument of a family must be 2-D, got shape %r' % (A.shape,))
+    return 'm %d %s' % (A.shape[0], clist(A))
 
 
-def t_comp(*ts):
-    """comp(t1, t2, ..., tn) = t1 after t2 after ... after tn"""
-    ts = [t for t in ts if t is not None]
-    res = ts[-1]
-    for t in reversed(ts[:-1]):
-        res = 'comp %s %s' % (t, res)
-    return res
+def a_opt(m):
+    return '-' if m is None else a_vec(m)
 
 
-def t_add(s, t):
-    return 'add %s %s' % (s, t)
-
-
-def t_sub(s, t):
-    return 'sub %s %s' % (s, t)
+def fam(name, *args):
+    """Request text `FAMILY ARG...` for `C06 denote-family`: the term is built by Elements.familyTerm in Lean."""
+    return name + ' ' + ' '.join(args) if args else name
 
 
 def probe(f, grid, wl, kind='scalar'):
@@ -877,8 +931,10 @@ def apod_of(sub, grid, wl, direction):
 
 
 def ir_term(entry, el, direction, kind, wl):
-    """(term, kind_used) or None.  The term uses only parameters the element exposes."""
-    fam = entry.family
+    """`FAMILY ARG...` or None: the name of the family schema of Model/Elements.lean (`Elements.familyTerm`) and its
+    arguments, which are only parameters the element exposes (sub-propagators probed as dense matrices).  The term
+    itself is built in Lean."""
+    fam_ = entry.family
     fwd = direction == 'forward'
     cname = entry.cls.__name__
     grid = entry.input_grid if fwd else entry.output_grid
@@ -886,17 +942,17 @@ def ir_term(entry, el, direction, kind, wl):
     import hcipy
     if entry.mult is not None:
         m = np.asarray(entry.mult(el, wl, direction), dtype=complex) * np.ones(grid.size)
-        return t_mul(np.tile(m, reps))
+        return fam('pointwise', a_vec(np.tile(m, reps)))
     if isinstance(el, hcipy.Apodizer):                       # every Apodizer subclass: its own instance data
-        return t_mul(np.tile(apod_of(el, grid, wl, direction), reps))
+        return fam('pointwise', a_vec(np.tile(apod_of(el, grid, wl, direction), reps)))
     if cname in ('MicroLensArray', 'SphericalMicroLensArray', 'EvenAsphereMicroLensArray'):
-        return t_mul(np.tile(apod_of(el.mla_surface, grid, wl, direction), reps))
+        return fam('pointwise', a_vec(np.tile(apod_of(el.mla_surface, grid, wl, direction), reps)))
     if cname == 'PeriodicOpticalElement':
-        return t_mul(np.tile(apod_of(el.apodization, grid, wl, direction), reps))
+        return fam('pointwise', a_vec(np.tile(apod_of(el.apodization, grid, wl, direction), reps)))
     if cname == 'SimpleVibration':
         ph = np.asarray(el.mode) * el.amplitude / wl * np.sin(el.phase)
-        return t_mul(np.tile(np.exp((1j if fwd else -1j) * ph), reps))
-    if fam == 'jones' and kind == 'vector':
+        return fam('pointwise', a_vec(np.tile(np.exp((1j if fwd else -1j) * ph), reps)))
+    if fam_ == 'jones' and kind == 'vector':
         J = np.asarray(el.get_instance_data(grid, None, wl).jones_matrix, dtype=complex)
         if J.ndim == 2:
             J = J[:, :, None] * np.ones(grid.size)
@@ -907,63 +963,61 @@ def ir_term(entry, el, direction, kind, wl):
         for i in range(2):
             for j in range(2):
                 A[i * n:(i + 1) * n, j * n:(j + 1) * n] = np.diag(J[i, j])
-        return t_mat(A)
+        return fam('dense', a_mat(A))
     if kind != 'scalar':
         return None
-    if fam == 'fibre-injection':
+    if fam_ == 'fibre-injection':
         if cname == 'SingleModeFiberInjection':
             mode = np.asarray(el.mode, dtype=complex)
             if fwd:
-                return t_comp(t_mat((mode * el.input_grid.weights)[None, :]), 'conj')
-            return t_mat(mode[:, None])
+                return fam('fibreForward', a_mat((mode * el.input_grid.weights)[None, :]))
+            return fam('fibreBackward', a_mat(mode[:, None]))
         P = np.asarray(el.projection_matrix, dtype=complex)
         if fwd:
-            return t_comp(t_mat(P.T * (el.input_grid.weights * np.ones(P.shape[0]))[None, :]), 'conj')
-        return t_mat(P)
-    if fam == 'projection':
-        return t_sub('id', t_comp(t_mat(el.transformation), t_mul(el.coeffs), t_mat(el.transformation_inverse)))
-    if fam == 'lyot' and cname == 'LyotCoronagraph':
+            return fam('fibreForward', a_mat(P.T * (el.input_grid.weights * np.ones(P.shape[0]))[None, :]))
+        return fam('fibreBackward', a_mat(P))
+    if fam_ == 'projection':
+        return fam('projection', a_mat(el.transformation), a_vec(el.coeffs), a_mat(el.transformation_inverse))
+    if fam_ == 'lyot' and cname == 'LyotCoronagraph':
         fg = el.prop.get_instance_data(entry.input_grid, None, wl).output_grid
         Pf = probe(el.prop.forward, entry.input_grid, wl)
         Pb = probe(el.prop.backward, fg, wl)
         m = apod_of(el.focal_plane_mask, fg, wl, direction)
         stop = apod_of(el.lyot_stop, entry.input_grid, wl, direction)
-        core = t_sub('id', t_comp(t_mat(Pb), t_mul(1 - m), t_mat(Pf)))
         if stop is None:
-            return core
-        return t_comp(t_mul(stop), core) if fwd else t_comp(core, t_mul(stop))
-    if fam == 'lyot' and cname == 'ZernikeWavefrontSensorOptics':
+            return fam('lyotCore', a_mat(Pb), a_vec(1 - m), a_mat(Pf))
+        return fam('lyotForward' if fwd else 'lyotBackward', a_vec(stop), a_mat(Pb), a_vec(1 - m), a_mat(Pf))
+    if fam_ == 'lyot' and cname == 'ZernikeWavefrontSensorOptics':
         fg = el.prop.get_instance_data(entry.input_grid, None, wl).output_grid
         Pf = probe(el.prop.forward, entry.input_grid, wl)
         Pb = probe(el.prop.backward, fg, wl)
         m = apod_of(el.phase_dot, fg, wl, direction)
-        return t_sub('id', t_comp(t_mat(Pb), t_mul(1 - m), t_mat(Pf)))
-    if fam == 'sandwich' and cname == 'OccultedLyotCoronagraph':
+        return fam('lyotCore', a_mat(Pb), a_vec(1 - m), a_mat(Pf))
+    if fam_ == 'sandwich' and cname == 'OccultedLyotCoronagraph':
         fg = el.prop.get_instance_data(entry.input_grid, None, wl).output_grid
         Pf = probe(el.prop.forward, entry.input_grid, wl)
         Pb = probe(el.prop.backward, fg, wl)
-        return t_comp(t_mat(Pb), t_mul(apod_of(el.focal_plane_mask, fg, wl, direction)), t_mat(Pf))
-    if fam == 'multiscale':
+        return fam('sandwich', a_mat(Pb), a_vec(apod_of(el.focal_plane_mask, fg, wl, direction)), a_mat(Pf))
+    if fam_ == 'multiscale':
         g = entry.input_grid
         stop = apod_of(el.lyot_stop, g, wl, direction)
         F0 = probe_field_map(el.props[0].forward if fwd else el.props[0].backward, g)
-        term = t_mat(F0)
+        args = [a_opt(stop), a_mat(F0)]
+        # Elements.multiscale adds the levels in the order `rest first`: sums commute exactly in the model
         for mask, prop in list(zip(el.focal_masks, el.props))[1:]:
             fg = prop.get_instance_data(g, None, 1).output_grid
             Pf = probe(prop.forward, g, 1)
             Pb = probe(prop.backward, fg, 1)
             mk = np.asarray(mask, dtype=complex)
-            term = t_add(term, t_comp(t_mat(Pb), t_mul(mk if fwd else mk.conj()), t_mat(Pf)))
-        if stop is None:
-            return term
-        return t_comp(t_mul(stop), term) if fwd else t_comp(term, t_mul(stop))
-    if fam == 'fibre-modes':
+            args += [a_mat(Pb), a_vec(mk if fwd else mk.conj()), a_mat(Pf)]
+        return fam('multiscaleForward' if fwd else 'multiscaleBackward', *args)
+    if fam_ == 'fibre-modes':
         inst = el.get_instance_data(grid, None, wl)
         M = np.asarray(inst.fiber_modes.transformation_matrix, dtype=complex)
         ph = np.exp((1j if fwd else -1j) * np.asarray(inst.beta) * el.fiber_length)
         w = grid.weights * np.ones(grid.size)
-        return t_comp(t_mat(M.conj()), t_mul(ph), t_mat(M.conj().T), t_mul(w))
-    if fam == 'fibre-nuller':
+        return fam('fibreModes', a_mat(M.conj()), a_vec(ph), a_mat(M.conj().T), a_vec(w))
+    if fam_ == 'fibre-nuller':
         fib = el.fiber
         fg = el.focal_grid
         if fwd:
@@ -973,16 +1027,18 @@ def ir_term(entry, el, direction, kind, wl):
             else:
                 Pm = np.asarray(fib.projection_matrix, dtype=complex)
                 rows = Pm.T * (fib.input_grid.weights * np.ones(Pm.shape[0]))[None, :]
-            return t_comp(t_mat(rows), 'conj', t_mat(P), t_mul(apod_of(el.apodizer, entry.input_grid, wl, 'forward')) if el.apodizer is not None else None)
+            return fam('fibreNuller', a_mat(rows), a_mat(P),
+                       a_opt(apod_of(el.apodizer, entry.input_grid, wl, 'forward') if el.apodizer is not None else None))
         Pb = probe(el.prop.backward, fg, wl)
         B = np.asarray(fib.mode, dtype=complex)[:, None] if hasattr(fib, 'mode') else np.asarray(fib.projection_matrix, dtype=complex)
-        return t_comp(t_mul(apod_of(el.apodizer, entry.input_grid, wl, 'backward')) if el.apodizer is not None else None, t_mat(Pb), t_mat(B))
+        return fam('fibreNullerBackward', a_opt(apod_of(el.apodizer, entry.input_grid, wl, 'backward') if el.apodizer is not None else None),
+                   a_mat(Pb), a_mat(B))
     if cname == 'SurfaceAberrationAtDistance':
         Ff = probe(el.fresnel.forward, grid, wl)
         Fb = probe(el.fresnel.backward, grid, wl)
-        return t_comp(t_mat(Fb), t_mul(apod_of(el.surface_aberration, grid, wl, direction)), t_mat(Ff))
+        return fam('sandwich', a_mat(Fb), a_vec(apod_of(el.surface_aberration, grid, wl, direction)), a_mat(Ff))
     subs = None
-    if fam == 'system' and hasattr(el, '_optical_elements'):
+    if fam_ == 'system' and hasattr(el, '_optical_elements'):
         subs = list(el.optical_elements)
     elif cname == 'PyramidWavefrontSensorOptics':
         subs = [el.pupil_to_focal, el.spatial_filter, el.pyramid, el.focal_to_pupil]
@@ -991,13 +1047,13 @@ def ir_term(entry, el, direction, kind, wl):
     if subs is not None:
         subs = subs if fwd else list(reversed(subs))
         g = grid
-        terms = []
+        parts = []
         for sub in subs:
             f = sub.forward if fwd else sub.backward
             A = probe(f, g, wl)
-            terms.append(t_mat(A))
+            parts.append(a_mat(A))
             g = f(hcipy.Wavefront(hcipy.Field(np.zeros(g.size, dtype=complex), g), wl)).electric_field.grid
-        return t_comp(*reversed(terms)) if terms else 'id'
+        return fam('system', *parts)         # Elements.system: first part is applied first
     return None
 
 
@@ -1010,6 +1066,195 @@ def parse_clist(s):
     import fractions
     vals = [float(fractions.Fraction(t)) for t in inner.split(',')]
     return np.array(vals[0::2]) + 1j * np.array(vals[1::2])
+
+
+# ---------------------------------------------------------------------------------------------
+# model correspondence: histories of calls and parameter changes replayed on Effects.callI / runHistory
+
+# families whose elements contain polarisation optics (the components are mixed): no per-component scalar term
+PER_COMPONENT_EXCLUDED = ('jones', 'jones-split', 'lyot-jones', 'multiscale-jones')
+
+HIST_WAVELENGTHS = (1.0, 0.75, 1.25)
+
+
+def hist_subject(name):
+    """(family, make() -> fresh element, set_param(el, k), watch(el) -> counter list, grids) for the history tie.
+    `set_param(el, k)` gives the element its parameter value number k; `watch` installs a counter of recomputations
+    of the memo cell's content (the *fill* the model predicts as a miss)."""
+    import hcipy as hp
+    g0 = hp.make_pupil_grid(8)
+    grids = [g0, hp.make_pupil_grid(8, 1.5), hp.make_pupil_grid(6)]
+
+    def watch_instance(el):
+        cnt = [0]
+        orig = el.make_instance
+
+        def counted(*a, **k):
+            cnt[0] += 1
+            return orig(*a, **k)
+        el.make_instance = counted          # instance attribute shadows the method: get_instance_data calls self.make_instance
+        return cnt
+
+    if name == 'ThinLens':
+        return ('agnosticInstance', lambda: hp.ThinLens(4.0, lambda wl: 1.5 + 0.0 * wl, 1.0),
+                lambda el, k: setattr(el, 'focal_length', 4.0 + 0.5 * k), watch_instance, grids)
+    if name == 'Apodizer':
+        def func(k):
+            return lambda grid, wavelength: hp.Field((1.0 + 0.25 * k) * np.exp(-(grid.x ** 2 + grid.y ** 2) * wavelength), grid)
+        return ('agnosticInstance', lambda: hp.Apodizer(func(0)), lambda el, k: setattr(el, 'apodization', func(k)), watch_instance, grids)
+    if name == 'PhaseApodizer':
+        def func(k):
+            return lambda grid: hp.Field((0.125 * k) * grid.x, grid)
+        return ('agnosticInstance', lambda: hp.PhaseApodizer(func(0)), lambda el, k: setattr(el, 'phase', func(k)), watch_instance, grids)
+    if name == 'DeformableMirror':
+        pool = [np.array([((7 * i + 3 * k) % 11 - 5) / 64.0 for i in range(16)]) for k in range(4)]
+
+        def make():
+            return hp.DeformableMirror(hp.make_gaussian_influence_functions(g0, 4, 0.25))
+
+        def watch(el):
+            cnt = [0]
+            mb = el.influence_functions
+            orig = mb.linear_combination
+
+            def counted(*a, **k):
+                cnt[0] += 1
+                return orig(*a, **k)
+            mb.linear_combination = counted
+            return cnt
+        return ('mirrorSurface', make, lambda el, k: setattr(el, 'actuators', pool[k % len(pool)].copy()), watch, grids[:1])
+    raise MachineryError('unknown history subject %r' % name)
+
+
+HIST_SUBJECTS = ('ThinLens', 'Apodizer', 'PhaseApodizer', 'DeformableMirror')
+
+
+def gen_history(rng, name, idx):
+    """A history: first a parameter change, then calls (grid number, wavelength number) and further parameter changes.
+    Agnostic elements: at most 10 calls (their cache holds 11 instances; eviction is C05's subject) and parameter values
+    never repeat (the setter clears the whole cache, the model keys the entries by the parameter instead).
+    The mirror: parameter values from a pool of 4, so setting the *same* actuators again occurs."""
+    agnostic = name != 'DeformableMirror'
+    ngrids = 3 if agnostic else 1
+    events = [['s', 0, 1 if agnostic else int(rng.integers(4))]]
+    nxt = 2
+    ncalls = int(rng.integers(3, 11))
+    last = None
+    for _ in range(ncalls):
+        u = rng.random()
+        if u < 0.25:
+            if agnostic:
+                events.append(['s', 0, nxt]); nxt += 1
+            else:
+                events.append(['s', 0, int(rng.integers(4))])
+        if last is not None and rng.random() < 0.35:
+            g, w = last                                # the same call again: the classical hit
+        else:
+            g, w = int(rng.integers(ngrids)), int(rng.integers(len(HIST_WAVELENGTHS)))
+        if agnostic and rng.random() < 0.2:
+            g = -1 - abs(g)                            # an equal but distinct grid object (same contents => same key)
+        events.append(['c', g, w])
+        last = (abs(g + 1) if g < 0 else g, w)
+    return {'mode': 'history', 'subject': name, 'events': events, 'data_seed': [int(idx)]}
+
+
+def run_history(case):
+    """Replay one history on the real element. Returns (bad, observed) with observed = per call event 1 if the memo
+    content was recomputed (a miss) else 0."""
+    import hcipy as hp
+    family, make, set_param, watch, grids = hist_subject(case['subject'])
+    el = make()
+    cnt = watch(el)
+    rng = np.random.default_rng(list(case['data_seed']) + [77])
+    bad = []
+    observed = []
+    current = None
+    tag = 'history %s' % case['subject']
+    for k, ev in enumerate(case['events']):
+        if ev[0] == 's':
+            current = ev[2]
+            set_param(el, current)
+            continue
+        gi = ev[1]
+        grid = grids[gi] if gi >= 0 else registry.fresh_grid(grids[-1 - gi])
+        wl = HIST_WAVELENGTHS[ev[2]]
+        E = hp.Field(registry.dyadic_complex(rng, (grid.size,)), grid)
+        keep = np.array(E, copy=True)
+        before = cnt[0]
+        with warnings.catch_warnings():
+            warnings.simplefilter('ignore')
+            out = np.array(el.forward(hp.Wavefront(E, wl)).electric_field, copy=True)
+            observed.append(1 if cnt[0] > before else 0)
+            # the clause itself (independent of the model): after this history the element answers like a freshly
+            # constructed one with the current parameters, and the input is intact
+            fresh = make()
+            set_param(fresh, current)
+            ref = np.asarray(fresh.forward(hp.Wavefront(hp.Field(keep.copy(), grid), wl)).electric_field)
+        if not np.array_equal(np.asarray(E), keep):
+            bad.append(('input-modified:field-values ' + tag, 'input-modified: call number %d of the history changed its input' % k))
+        if out.shape != ref.shape or maxabs(out - ref) > TOL_REP * max(1.0, maxabs(ref)):
+            bad.append(('history-parameters ' + tag,
+                        'history: after the events %r the element returns something else than a fresh element with the current '
+                        'parameter (max diff %.3g) [%s]' % (case['events'][:k + 1], maxabs(out - ref) if out.shape == ref.shape else float('inf'), case['subject'])))
+    return bad, observed, family
+
+
+def history_line(family, events):
+    toks = []
+    for k, ev in enumerate(events):
+        if ev[0] == 's':
+            toks.append('s:%d:%d' % (ev[1], ev[2]))
+        else:
+            g = ev[1] if ev[1] >= 0 else -1 - ev[1]
+            toks.append('c:%d:%d:%d' % (100 + k, ev[2], g))     # field values: a different number every call (never part of a key)
+    return 'C06 history %s %s' % (family, ' '.join(toks))
+
+
+def history_tie(ctx):
+    n = ctx.scale(10, 60)
+    rng = np.random.default_rng([ctx.seed, 6, 7])
+    cases = []
+    # directed corpus: same call twice; wavelength change; parameter change between identical calls; back to an earlier key
+    cases.append({'mode': 'history', 'subject': 'ThinLens', 'data_seed': [0],
+                  'events': [['s', 0, 1], ['c', 0, 0], ['c', 0, 0], ['c', 0, 1], ['c', 0, 0], ['s', 0, 2], ['c', 0, 0], ['c', -1, 0], ['c', 1, 0], ['c', 0, 0]]})
+    cases.append({'mode': 'history', 'subject': 'DeformableMirror', 'data_seed': [1],
+                  'events': [['s', 0, 0], ['c', 0, 0], ['c', 0, 1], ['s', 0, 1], ['c', 0, 0], ['s', 0, 0], ['c', 0, 0], ['s', 0, 0], ['c', 0, 2]]})
+    idx = 2
+    for name in HIST_SUBJECTS:
+        for _ in range(n):
+            cases.append(gen_history(rng, name, idx)); idx += 1
+    lines, kept = [], []
+    for case in cases:
+        bad, observed, family = run_history(case)
+        for key, what in bad:
+            ctx.violation(key, what, case)
+        ctx.count('history-subject:' + case['subject'])
+        ctx.count('history-calls:%d' % len(observed))
+        ctx.count('history-param-changes:%d' % (sum(1 for e in case['events'] if e[0] == 's') - 1))
+        ctx.case(None, nontrivial_key=('history', case['subject'], repr(case['events'])) if (0 in observed and 1 in observed) else None)
+        lines.append(history_line(family, case['events']))
+        kept.append((case, observed, family))
+    answers = ctx.model(lines)
+    for (case, observed, family), ans, line in zip(kept, answers, lines):
+        toks = ans.split(' ')
+        if toks[:2] != ['ok', 'safe=1'] or len(toks) != 3 + len(case['events']) or toks[2] != 'cells=0':
+            raise MachineryError('unexpected answer to %r: %r' % (line, ans))
+        predicted, fresh_ok = [], True
+        for ev, t in zip(case['events'], toks[3:]):
+            if ev[0] == 's':
+                if t != 's':
+                    raise MachineryError('history token mismatch %r' % ans)
+                continue
+            if len(t) != 4 or t[0] != 'h' or t[2] != 'f':
+                raise MachineryError('history token %r' % t)
+            predicted.append(0 if t[1] == '1' else 1)          # hit => no recomputation
+            fresh_ok = fresh_ok and t[3] == '1'
+        ctx.traces_validated += len(observed)
+        for o in observed:
+            ctx.count('history-observed:' + ('miss' if o else 'hit'))
+        if predicted != observed or not fresh_ok:
+            ctx.disagree('C06 history', {'subject': case['subject'], 'family': family, 'events': case['events'],
+                                         'model_miss': predicted, 'impl_miss': observed, 'model_fresh_equal': fresh_ok})
 
 
 # ---------------------------------------------------------------------------------------------
@@ -1100,6 +1345,7 @@ def run(ctx):
                         'float arithmetic on the generated dyadic fields (a*E1+E2) is exact',
                         'sub-propagators probed as dense matrices are linear (checked by their own registry entries)']
     load_internal_declarations(ctx)
+    history_tie(ctx)
     internal_seen = {}
     registries, cases = plan(ctx)
     entries = registries[0]
@@ -1118,6 +1364,7 @@ def run(ctx):
     requests = []        # (line, kind-of-request, payload)
     denote_done = set()
     heavy_budget = ctx.scale(48, 600)
+    pc_budget = {}                              # large per-component requests: their own budget, per family
     for case in cases:
         e = by_name[(case['registry'], case['entry'])]
         ekey = (case['registry'], e.name)
@@ -1179,7 +1426,15 @@ def run(ctx):
         denote_done.add(fkey)
         prog = effect_program(e, el, case['direction'], case['kind'])
         if prog is not None:
-            requests.append(('C06 effects ' + prog, 'effects', (case, obs, prog)))
+            try:
+                n_rounds = loop_rounds(prog, e, el, case)
+            except Exception as ex:     # noqa
+                raise MachineryError('cannot read the number of loop rounds of %s: %s: %s' % (e.name, type(ex).__name__, ex))
+            if n_rounds is None:
+                requests.append(('C06 effects ' + prog, 'effects', (case, obs, prog)))
+            else:
+                requests.append(('C06 effects-loop %s %d' % (prog, n_rounds), 'effects', (case, obs, prog)))
+                ctx.count('effects-loop-rounds:%s:%d' % (prog, n_rounds))
             ctx.count('effects-program:' + prog)
         else:
             ctx.count('effects-program:none')
@@ -1188,44 +1443,120 @@ def run(ctx):
         try:
             term = ir_term(e, el, case['direction'], case['kind'], case['wavelength'])
         except Exception as ex:     # noqa
+            if ctx.violations:
+                # the oracle has already found failing inputs in this run; a defect that rewrites shared
+                # objects (a grid rescaled in place …) can leave later elements with non-finite parameters:
+                # report what was found instead of dying on the wreckage
+                ctx.count('denote-skipped-after-violation')
+                continue
             raise MachineryError('cannot build the IR term of %s: %s: %s' % (e.name, type(ex).__name__, ex))
+        if term is None and case['kind'] != 'scalar' and 'outs' in obs and len(obs['outs']) == len(obs['ins']):
+            # polarised input (vector: 2 components, Jones-matrix field: 4): the elements without polarisation optics act on
+            # every component as they act on a scalar field.  The scalar term is evaluated on each component of E1, E2
+            # and a*E1+E2 and compared with the corresponding component of the element's output (theorem
+            # family_semilinear then speaks about each component; the direct sum of linear maps is linear).
+            try:
+                term = ir_term(e, el, case['direction'], 'scalar', case['wavelength']) if e.family not in PER_COMPONENT_EXCLUDED else None
+            except Exception as ex:     # noqa
+                if ctx.violations:
+                    ctx.count('denote-skipped-after-violation')
+                    continue
+                raise MachineryError('cannot build the IR term of %s: %s: %s' % (e.name, type(ex).__name__, ex))
+            if term is not None:
+                reps = {'vector': 2, 'tensor': 4}[case['kind']]
+                for x_, o_ in zip(obs['ins'], obs['outs']):
+                    if np.asarray(x_).shape[:-1] != ((2,) if reps == 2 else (2, 2)) or np.asarray(o_[0]).shape[:-1] != np.asarray(x_).shape[:-1]:
+                        raise MachineryError('%s on a %s field: input/output is not made of %d components' % (e.name, case['kind'], reps))
+                obs = dict(obs, blocks=reps)        # arrays are C-ordered: component after component when flattened
         if term is not None:
             heavy = len(term) > 200000
-            if heavy and heavy_budget <= 0:
+            if heavy and 'blocks' in obs:
+                left = pc_budget.setdefault(e.family, ctx.scale(3, 60))
+                if left <= 0:
+                    ctx.count('denote-per-component-skipped-budget')
+                    continue
+                pc_budget[e.family] = left - 1
+            elif heavy and heavy_budget <= 0:
                 ctx.count('denote-skipped-budget')
                 continue
-            if heavy:
+            elif heavy:
                 heavy_budget -= 1
-            requests.append(('C06 denote %s @ %s' % (term, clist(obs['in'])), 'denote', (case, obs, e)))
+            if 'blocks' in obs:
+                ctx.count('denote-per-component:%s %s' % (e.family, case['kind']))
+                requests.append(('C06 denote-family-blocks %d %s @ %s' % (obs['blocks'], term, ' @ '.join(clist(np.asarray(x).ravel()) for x in obs['ins'])),
+                                 'denote', (case, obs, e)))
+                ctx.count('denote-schema-blocks:' + term.split(' ', 1)[0])
+                ctx.extra.setdefault('blocks_request_MB', {})
+                ctx.extra['blocks_request_MB'][e.family] = round(ctx.extra['blocks_request_MB'].get(e.family, 0) + len(requests[-1][0]) / 1e6, 2)
+                continue
+            requests.append(('C06 denote-family %s @ %s' % (term, ' @ '.join(clist(x) for x in obs['ins'])), 'denote', (case, obs, e)))
             ctx.count('denote-family:' + e.family)
+            ctx.count('denote-schema:' + term.split(' ', 1)[0])
+            ctx.count('denote-inputs:%d' % len(obs['ins']))
     ctx.extra['internal_cells_seen'] = internal_seen
     if not requests:
         return
+    import time
+    t_model = time.time()
     answers = ctx.model([r[0] for r in requests])
+    ctx.extra['model_seconds'] = round(time.time() - t_model, 1)
+    ctx.extra['model_request_MB'] = round(sum(len(r[0]) for r in requests) / 1e6, 1)
     for (line, what, payload), ans in zip(requests, answers):
         ctx.traces_validated += 1
         case, obs = payload[0], payload[1]
         label = {k: case[k] for k in ('entry', 'kind', 'direction', 'wavelength')}
         if what == 'effects':
             prog = payload[2]
-            if not ans.startswith('ok safe=1 '):
-                ctx.disagree('C06 effects', {'case': label, 'program': prog, 'model': ans, 'note': 'program not accepted by the checker'})
+            toks = ans.split(' ')
+            if len(toks) != 10 or toks[0] != 'ok' or not toks[8].startswith('touches=') or not toks[9].startswith('created='):
+                raise MachineryError('unexpected effects answer %r' % ans)
+            if toks[1] != 'safe=1' or toks[5] != 'safeGrid=1' or toks[6] != 'safeStokes=1':
+                ctx.disagree('C06 effects', {'case': label, 'program': prog, 'model': ans,
+                                             'note': 'program not accepted by the checker on all three heaps (field arrays, grid objects, Stokes vectors)'})
                 continue
-            if ans[len('ok safe=1 '):] != effects_line(obs):
+            if ' '.join(toks[2:5]) != effects_line(obs):
                 ctx.disagree('C06 effects', {'case': label, 'program': prog, 'model': ans, 'impl': effects_line(obs)})
+            # what was done to the input object, in order ('copy' of it, a wavefront 'wrap'ped around its array, attribute
+            # writes), and how many wavefront objects the call created.  `chain` stands for compositions of arbitrary
+            # parts (no fixed trace); the programs with a loop are unrolled by the model for this element's number of
+            # rounds (`effects-loop`).
+            obs_touch = 'touches=%s' % (','.join(obs['touches']) or '-')
+            m_created = int(toks[9][len('created='):])
+            if prog == 'chain':
+                ctx.count('object-trace: opaque composition (not compared)')
+            else:
+                ctx.count('object-trace: touches and created exact')
+                if toks[8] != obs_touch or obs['created'] != m_created:
+                    ctx.disagree('C06 effects', {'case': label, 'program': line[len('C06 '):], 'model': ' '.join(toks[8:10]),
+                                                 'impl': '%s created=%d' % (obs_touch, obs['created']),
+                                                 'note': 'what the call does to the object it was given / number of wavefront objects it creates'})
+            # aliasing of the attached objects: the model over-approximates ("may point to the input's grid"), so the
+            # comparison is one-sided: a result that really points to the input's grid object must be known to the model;
+            # the Stokes vector of a result is never the input's object (the model copies it on every construction)
+            ctx.count('grid-aliasing %s model=%s observed=%d' % (prog, toks[7][-1], obs['ret_shares_grid']))
+            if (obs['ret_shares_grid'] and toks[7] != 'retSharesGrid=1') or (obs['ret_shares_stokes'] and not obs['ret_is_input']):
+                ctx.disagree('C06 effects', {'case': label, 'program': prog, 'model': ans,
+                                             'impl': 'result points to the input\'s grid object: %d, to its Stokes vector object: %d' % (obs['ret_shares_grid'], obs['ret_shares_stokes'])})
         else:
             e = payload[2]
             toks = ans.split(' ')
-            if len(toks) != 3 or toks[0] != 'ok':
-                raise MachineryError('unexpected denote answer %r' % ans[:120])
+            n_in = len(obs['ins'])
+            if len(toks) != 3 + n_in or toks[0] != 'ok':
+                raise MachineryError('unexpected denote-family answer %r to %r' % (ans[:120], line[:80]))
             conj = e.conj_forward if case['direction'] == 'forward' else e.conj_backward
-            if toks[1] != ('par=conj' if conj else 'par=lin'):
-                ctx.disagree('C06 denote parity', {'case': label, 'model': toks[1], 'registry': 'conj' if conj else 'lin'})
-            ref = parse_clist(toks[2])
-            got = obs['out'][0].ravel()
-            if ref.shape != got.shape or maxabs(ref - got) > TOL_MODEL * max(1.0, maxabs(got)):
-                ctx.disagree('C06 denote', {'case': label, 'max_diff': (maxabs(ref - got) if ref.shape == got.shape else 'shape %r vs %r' % (ref.shape, got.shape)),
-                                            'scale': maxabs(got)})
+            want = 'conj' if conj else 'lin'
+            # the parity computed structurally on the term Lean built, the parity the Lean family table declares
+            # (Family.conj; theorem family_parity says the two agree) and what the registry says the code does
+            if toks[1] != 'par=' + want or toks[2] != 'expect=' + want:
+                ctx.disagree('C06 denote parity', {'case': label, 'model': toks[1] + ' ' + toks[2], 'registry': want})
+            for k in range(n_in):
+                ctx.traces_validated += 1 if k else 0
+                ref = parse_clist(toks[3 + k])
+                got = obs['outs'][k][0].ravel()
+                if ref.shape != got.shape or maxabs(ref - got) > TOL_MODEL * max(1.0, maxabs(got)):
+                    ctx.disagree('C06 denote', {'case': label, 'input': ('E1', 'E2', 'a*E1+E2')[k], 'schema': line.split(' ')[3 if 'blocks' in obs else 2],
+                                                'max_diff': (maxabs(ref - got) if ref.shape == got.shape else 'shape %r vs %r' % (ref.shape, got.shape)),
+                                                'scale': maxabs(got)})
 
 
 def warm_up(e, el, case):
@@ -1243,6 +1574,11 @@ def warm_up(e, el, case):
 
 
 def replay(ctx, case):
+    if case.get('mode') == 'history':
+        bad, _, _ = run_history(case)
+        for key, what in bad:
+            print('  fails:', key, '-', what)
+        return not bad
     e = find_entry(case)
     el = e.factory()
     warm_up(e, el, case)
